@@ -256,10 +256,37 @@ end module snip_ptr
 ]
 
 
+def chain_workspace(rng):
+    """a -> b -> c -> main: c's type extends a type of a that it only sees through b's re-export;
+    main reaches a's components through c's type.  Edits of a must reach c and main."""
+    t = gen.rand_ident(rng, 3)
+    pad = ["  ! filler %d" % k for k in range(rng.randint(3, 9))]
+    a = ["module ca_%s" % t, "  implicit none"] + pad + [
+        "  type :: ta_%s" % t, "    integer :: fld_%s" % t, "    real :: oth_%s" % t, "  contains",
+        "    procedure :: meth_%s" % t, "  end type ta_%s" % t, "contains",
+        "  subroutine meth_%s(self)" % t, "    class(ta_%s) :: self" % t, "  end subroutine meth_%s" % t,
+        "end module ca_%s" % t]
+    b = ["module cb_%s" % t, "  use ca_%s" % t, "  implicit none", "  integer :: bv_%s" % t, "end module cb_%s" % t]
+    c = ["module cc_%s" % t, "  use cb_%s" % t, "  implicit none", "  type, extends(ta_%s) :: tc_%s" % (t, t),
+         "    integer :: own_%s" % t, "  end type tc_%s" % t, "  type(tc_%s) :: cv_%s" % (t, t), "contains",
+         "  subroutine cuse_%s()" % t, "    cv_%s%%fld_%s = 1" % (t, t), "    call cv_%s%%meth_%s()" % (t, t),
+         "    print *, cv_%s%%ta_%s%%oth_%s" % (t, t, t), "  end subroutine cuse_%s" % t, "end module cc_%s" % t]
+    m = ["program cm_%s" % t, "  use cc_%s" % t, "  implicit none", "  type(tc_%s) :: v" % t,
+         "  v%%fld_%s = 2" % t, "  v%%oth_%s = 3.0" % t, "  call v%%meth_%s()" % t, "  v%%own_%s = 4" % t,
+         "  associate (q => v%%fld_%s)" % t, "    print *, q", "  end associate", "end program cm_%s" % t]
+    return {f"{ROOT}/ca_{t}.f90": "\n".join(a) + "\n", f"{ROOT}/cb_{t}.f90": "\n".join(b) + "\n",
+            f"{ROOT}/cc_{t}.f90": "\n".join(c) + "\n", f"{ROOT}/cm_{t}.f90": "\n".join(m) + "\n"}
+
+
 def structural_edit(rng, lines):
     """edits that make entities vanish, documents shrink, statements half-typed"""
     r = rng.random()
     n = len(lines)
+    if rng.random() < 0.2 and n > 6:
+        # remove a few lines near the top: everything declared below moves up
+        a = rng.randint(1, min(4, n - 3))
+        b = min(n - 1, a + rng.randint(1, 3))
+        return {"range": {"start": {"line": a, "character": 0}, "end": {"line": b, "character": 0}}, "text": ""}
     if r < 0.3 and n > 2:
         a = rng.randrange(n - 1)
         b = min(n - 1, a + rng.randint(0, 6))
@@ -308,7 +335,10 @@ def gen_sched(g):
         for n, t in pm.render_all(ws).items():
             tree[f"{ROOT}/{n}"] = t
         wk = "template"
-    elif kindr < 0.9:
+    elif kindr < 0.86:
+        tree.update(chain_workspace(rng))
+        wk = "template"  # same treatment: all files open, bursts on every other file after an edit
+    elif kindr < 0.93:
         k = rng.randrange(len(SNIPPETS))
         tree[f"{ROOT}/snip{k}.f90"] = SNIPPETS[k]
         tree[f"{ROOT}/snip_short.f90"] = "integer :: short_var\n"
@@ -350,12 +380,24 @@ def gen_sched(g):
         for (li, ch) in pts:
             m = rng.choice(gen.POSITIONAL_METHODS) if meths is None else meths[0]
             ops.append(gen.positional(rid(), m, p, li, ch, rng=rng))
+        if wk == "template":
+            # member accesses resolve through other files (type of the variable, inherited
+            # components): ask for each of them where it is defined and referenced
+            mem = [(li, mm.start() + 1) for li, ln in enumerate(lines) for mm in re.finditer(r"%[A-Za-z_]", ln)]
+            if len(mem) > 10:
+                mem = rng.sample(mem, 10)
+            for (li, ch) in mem:
+                ops.append(gen.positional(rid(), rng.choice(["textDocument/definition", "textDocument/references",
+                                                             "textDocument/implementation", "textDocument/hover"]),
+                                          p, li, ch + 1, rng=rng))
 
     def open_doc(p):
         ops.append(gen.did_open(p, disk[p]))
         docs[p] = model.lines_from_disk(disk[p].encode("utf-8"))
 
     first = rng.sample(srcs, min(len(srcs), rng.randint(1, 3)))
+    if wk == "template":
+        first = list(srcs)  # cross-file chains matter here: keep every file open
     for p in first:
         open_doc(p)
         burst(p, 24)
@@ -437,7 +479,12 @@ def gen_sched(g):
         if p in disk or docs.get(p) is not None:
             burst(p, 14)
         others = sorted(q for q in docs if docs[q] is not None and q != p)
-        if others:
+        if others and wk == "template":
+            # answers in *other* files that go through the edited one (inherited components,
+            # re-exported types) are where stale coordinates show
+            for q in others:
+                burst(q, 7)
+        elif others:
             burst(rng.choice(others), 8)
     ops += [gen.req(rid(), "shutdown"), gen.note("exit")]
     return {"argv": argv, "tree": tree, "ops": ops, "sync_kind": 2, "strict_edits": False, "faults": faults,
